@@ -9,6 +9,31 @@ import (
 	"github.com/cloudwego/frugal/internal/verifshim/sched"
 )
 
+type mutexFree struct{ m *Mutex }
+
+//go:norace
+func (w mutexFree) Ready() bool { return !w.m.held }
+
+type rwFree struct{ m *RWMutex }
+
+//go:norace
+func (w rwFree) Ready() bool { return !w.m.w && w.m.readers == 0 }
+
+type rwNoWriter struct{ m *RWMutex }
+
+//go:norace
+func (w rwNoWriter) Ready() bool { return !w.m.w }
+
+type wgZero struct{ w *WaitGroup }
+
+//go:norace
+func (w wgZero) Ready() bool { return w.w.n == 0 }
+
+type tokSet struct{ tok *int }
+
+//go:norace
+func (w tokSet) Ready() bool { return *w.tok == 1 }
+
 type Locker interface {
 	Lock()
 	Unlock()
@@ -18,13 +43,15 @@ type Mutex struct {
 	held bool
 }
 
+//go:norace
 func (m *Mutex) Lock() {
 	sched.Point("Mutex.Lock")
-	sched.Block("Mutex.Lock", func() bool { return !m.held })
+	sched.Block("Mutex.Lock", mutexFree{m})
 	m.held = true
 	raceAcquire(m)
 }
 
+//go:norace
 func (m *Mutex) TryLock() bool {
 	sched.Point("Mutex.TryLock")
 	if m.held {
@@ -35,6 +62,7 @@ func (m *Mutex) TryLock() bool {
 	return true
 }
 
+//go:norace
 func (m *Mutex) Unlock() {
 	sched.Point("Mutex.Unlock")
 	if !m.held {
@@ -49,13 +77,15 @@ type RWMutex struct {
 	readers int
 }
 
+//go:norace
 func (m *RWMutex) Lock() {
 	sched.Point("RWMutex.Lock")
-	sched.Block("RWMutex.Lock", func() bool { return !m.w && m.readers == 0 })
+	sched.Block("RWMutex.Lock", rwFree{m})
 	m.w = true
 	raceAcquire(m)
 }
 
+//go:norace
 func (m *RWMutex) TryLock() bool {
 	sched.Point("RWMutex.TryLock")
 	if m.w || m.readers > 0 {
@@ -66,6 +96,7 @@ func (m *RWMutex) TryLock() bool {
 	return true
 }
 
+//go:norace
 func (m *RWMutex) Unlock() {
 	sched.Point("RWMutex.Unlock")
 	if !m.w {
@@ -75,13 +106,15 @@ func (m *RWMutex) Unlock() {
 	m.w = false
 }
 
+//go:norace
 func (m *RWMutex) RLock() {
 	sched.Point("RWMutex.RLock")
-	sched.Block("RWMutex.RLock", func() bool { return !m.w })
+	sched.Block("RWMutex.RLock", rwNoWriter{m})
 	m.readers++
 	raceAcquire(m)
 }
 
+//go:norace
 func (m *RWMutex) TryRLock() bool {
 	sched.Point("RWMutex.TryRLock")
 	if m.w {
@@ -92,6 +125,7 @@ func (m *RWMutex) TryRLock() bool {
 	return true
 }
 
+//go:norace
 func (m *RWMutex) RUnlock() {
 	sched.Point("RWMutex.RUnlock")
 	if m.readers <= 0 {
@@ -103,9 +137,13 @@ func (m *RWMutex) RUnlock() {
 
 type rlocker RWMutex
 
-func (r *rlocker) Lock()   { (*RWMutex)(r).RLock() }
+//go:norace
+func (r *rlocker) Lock() { (*RWMutex)(r).RLock() }
+
+//go:norace
 func (r *rlocker) Unlock() { (*RWMutex)(r).RUnlock() }
 
+//go:norace
 func (m *RWMutex) RLocker() Locker { return (*rlocker)(m) }
 
 type Once struct {
@@ -113,6 +151,7 @@ type Once struct {
 	done bool
 }
 
+//go:norace
 func (o *Once) Do(f func()) {
 	sched.Point("Once.Do")
 	if o.done {
@@ -122,12 +161,15 @@ func (o *Once) Do(f func()) {
 	o.m.Lock()
 	defer o.m.Unlock()
 	if !o.done {
-		defer func() {
-			raceRelease(o)
-			o.done = true
-		}()
+		defer o.finish()
 		f()
 	}
+}
+
+//go:norace
+func (o *Once) finish() {
+	raceRelease(o)
+	o.done = true
 }
 
 func OnceFunc(f func()) func() {
@@ -139,6 +181,7 @@ type WaitGroup struct {
 	n int
 }
 
+//go:norace
 func (w *WaitGroup) Add(d int) {
 	sched.Point("WaitGroup.Add")
 	raceRelease(w)
@@ -148,11 +191,13 @@ func (w *WaitGroup) Add(d int) {
 	}
 }
 
+//go:norace
 func (w *WaitGroup) Done() { w.Add(-1) }
 
+//go:norace
 func (w *WaitGroup) Wait() {
 	sched.Point("WaitGroup.Wait")
-	sched.Block("WaitGroup.Wait", func() bool { return w.n == 0 })
+	sched.Block("WaitGroup.Wait", wgZero{w})
 	raceAcquire(w)
 }
 
@@ -161,17 +206,20 @@ type Cond struct {
 	waiters []*int
 }
 
+//go:norace
 func NewCond(l Locker) *Cond { return &Cond{L: l} }
 
+//go:norace
 func (c *Cond) Wait() {
 	tok := new(int)
 	c.waiters = append(c.waiters, tok)
 	c.L.Unlock()
-	sched.Block("Cond.Wait", func() bool { return *tok == 1 })
+	sched.Block("Cond.Wait", tokSet{tok})
 	raceAcquire(c)
 	c.L.Lock()
 }
 
+//go:norace
 func (c *Cond) Signal() {
 	sched.Point("Cond.Signal")
 	raceRelease(c)
@@ -181,6 +229,7 @@ func (c *Cond) Signal() {
 	}
 }
 
+//go:norace
 func (c *Cond) Broadcast() {
 	sched.Point("Cond.Broadcast")
 	raceRelease(c)
@@ -200,19 +249,22 @@ type Pool struct {
 }
 
 type poolItem struct {
-	v any
+	v    any
+	cell *byte // the race detector's synchronisation address of this pooled object
 }
 
+//go:norace
 func (p *Pool) Put(x any) {
 	if x == nil {
 		return
 	}
 	sched.Point("Pool.Put")
-	it := poolItem{v: x}
-	raceReleaseItem(p, len(p.items))
+	it := poolItem{v: x, cell: new(byte)}
+	raceRelease(it.cell)
 	p.items = append(p.items, it)
 }
 
+//go:norace
 func (p *Pool) Get() any {
 	sched.Point("Pool.Get")
 	n := len(p.items)
@@ -236,6 +288,8 @@ func (p *Pool) Get() any {
 }
 
 // Len reports the number of pooled objects (verification hook).
+//
+//go:norace
 func (p *Pool) Len() int { return len(p.items) }
 
 // Map mirrors sync.Map with a mutex-protected map.
@@ -245,6 +299,7 @@ type Map struct {
 	ks []any // insertion order, for deterministic Range
 }
 
+//go:norace
 func (m *Map) Load(k any) (any, bool) {
 	m.mu.Lock()
 	defer m.mu.Unlock()
@@ -252,12 +307,14 @@ func (m *Map) Load(k any) (any, bool) {
 	return v, ok
 }
 
+//go:norace
 func (m *Map) Store(k, v any) {
 	m.mu.Lock()
 	defer m.mu.Unlock()
 	m.store(k, v)
 }
 
+//go:norace
 func (m *Map) store(k, v any) {
 	if m.m == nil {
 		m.m = map[any]any{}
@@ -268,6 +325,7 @@ func (m *Map) store(k, v any) {
 	m.m[k] = v
 }
 
+//go:norace
 func (m *Map) LoadOrStore(k, v any) (any, bool) {
 	m.mu.Lock()
 	defer m.mu.Unlock()
@@ -278,6 +336,7 @@ func (m *Map) LoadOrStore(k, v any) (any, bool) {
 	return v, false
 }
 
+//go:norace
 func (m *Map) LoadAndDelete(k any) (any, bool) {
 	m.mu.Lock()
 	defer m.mu.Unlock()
@@ -286,6 +345,7 @@ func (m *Map) LoadAndDelete(k any) (any, bool) {
 	return v, ok
 }
 
+//go:norace
 func (m *Map) del(k any) {
 	if _, ok := m.m[k]; ok {
 		delete(m.m, k)
@@ -298,8 +358,10 @@ func (m *Map) del(k any) {
 	}
 }
 
+//go:norace
 func (m *Map) Delete(k any) { m.LoadAndDelete(k) }
 
+//go:norace
 func (m *Map) Swap(k, v any) (any, bool) {
 	m.mu.Lock()
 	defer m.mu.Unlock()
@@ -308,6 +370,7 @@ func (m *Map) Swap(k, v any) (any, bool) {
 	return old, ok
 }
 
+//go:norace
 func (m *Map) CompareAndSwap(k, old, new any) bool {
 	m.mu.Lock()
 	defer m.mu.Unlock()
@@ -318,6 +381,7 @@ func (m *Map) CompareAndSwap(k, old, new any) bool {
 	return false
 }
 
+//go:norace
 func (m *Map) CompareAndDelete(k, old any) bool {
 	m.mu.Lock()
 	defer m.mu.Unlock()
@@ -328,6 +392,7 @@ func (m *Map) CompareAndDelete(k, old any) bool {
 	return false
 }
 
+//go:norace
 func (m *Map) Range(f func(k, v any) bool) {
 	m.mu.Lock()
 	ks := append([]any{}, m.ks...)
